@@ -92,7 +92,13 @@ class AbstractTypeResolver:
                 if id_func(obj):
                     enum_type = data_type
                     break
-            if obj_type not in self.cache_blocklist:
+            # Proxy objects (e.g. weakref.proxy) report the class of their
+            # referent, so instances of one proxy type can belong to different
+            # groups and the result must not be cached per type.
+            if (
+                obj_type not in self.cache_blocklist
+                and getattr(obj, "__class__", obj_type) is obj_type
+            ):
                 self.type_map[obj_type] = enum_type
 
         return enum_type
